@@ -259,6 +259,7 @@ HARD_SHAPES = [
     [-1, 0, 0, 0, 0, 1],             # bush: root with four children
     [-1, 0, 1, 1, 1, 2, 5],          # inner node with three children, one of them deep
     [-1, 0, 1, 2],                   # chain rooted at an end (root with a single child)
+    [-1, 0, 1, 1, 2, 3],             # single-child root above a node with two depth-2 branches
 ]
 
 
